@@ -14,6 +14,11 @@ from hexital.analysis import movement, patterns  # noqa: E402
 def col(rows, nm):
     if nm in ("open", "high", "low", "close", "volume"):
         return [r[nm] for r in rows]
+    if "." in nm:
+        # a dotted name reads one part of a dict-valued reading; a dict without that part has no reading there
+        main, part = nm.split(".")
+        vals = [r.get("inds", {}).get(main) for r in rows]
+        return [v.get(part) if isinstance(v, dict) else v for v in vals]
     return [r.get("inds", {}).get(nm) for r in rows]
 
 
